@@ -41,7 +41,7 @@ def tiny_png(path, w=3, h=2):
 # generic coloured document
 # --------------------------------------------------------------------------------------
 
-def build_color_doc(spec, shared=None, shared_page=None, shared_subline=None):
+def build_color_doc(spec, shared=None, shared_page=None, shared_subline=None, shared_notes=None):
     """spec: dict(path, sections=[dict(n, m, text, bg, brd)], comp={name: [text, bg, font]}, nrow)
     comp names: title subline header footnote source pghdr pgftr.  Returns RTFDocument."""
     import polars as pl
@@ -81,9 +81,12 @@ def build_color_doc(spec, shared=None, shared_page=None, shared_subline=None):
         d = spec.get("tmpdir") or tempfile.mkdtemp(prefix="rtflite-verif-fig-")
         figs = [tiny_png(os.path.join(d, "f%d.png" % i)) for i in range(spec.get("nfig", 2))]
         return rtf.RTFDocument(rtf_figure=rtf.RTFFigure(figures=figs, fig_width=1.0, fig_height=1.0), **kw)
-    if "footnote" in comp:
+    if shared_notes is not None:
+        # one caller-owned footnote and source (several lines each) used by every document of the family
+        kw["rtf_footnote"], kw["rtf_source"] = shared_notes
+    if "footnote" in comp and shared_notes is None:
         kw["rtf_footnote"] = rtf.RTFFootnote(text="~FN~", **comp_kw("footnote"))
-    if "source" in comp:
+    if "source" in comp and shared_notes is None:
         cs = comp["source"]
         kw["rtf_source"] = rtf.RTFSource(text="~SRC~", **({"as_table": True} if len(cs) > 3 and cs[3] else {}), **comp_kw("source"))
     dfs, bodies, headers = [], [], []
@@ -273,6 +276,9 @@ POOL = {
     # two documents on one caller-owned RTFSubline (a text component that refers to the table for its indentation)
     "subA": dict(path="single", sections=[dict(n=2, m=2)], comp={}),
     "subB": dict(path="single", sections=[dict(n=3, m=1)], comp={}),
+    # two documents on one caller-owned RTFFootnote / RTFSource (three and two text lines)
+    "fnA": dict(path="single", sections=[dict(n=3, m=2)], comp={}),
+    "fnB": dict(path="single", sections=[dict(n=2, m=1)], comp={"title": ["", "", 0]}),
     # subline_by together with page_by, new_page left at its default
     "sublpb": dict(path="single", sections=[dict(n=4, m=3, colvals={"0": ["s1", "s1", "s2", "s2"], "1": ["p1", "p2", "p1", "p2"]},
                                                  subline_by=["~D1.1~"], page_by=["~D1.2~"])], comp={}),
@@ -289,6 +295,12 @@ POOL = {
 SHARED_FAMILY = {"share1": "b", "share2": "b", "share3": "b", "sharew2": "w", "sharew3": "w"}
 SHARED_PAGE = {"pgshare", "pgfail", "pgmulti"}        # documents built on one caller-owned RTFPage object
 SHARED_SUBLINE = {"subA", "subB"}          # documents built on one caller-owned RTFSubline object
+SHARED_NOTES = {"fnA", "fnB"}              # documents built on one caller-owned RTFFootnote and RTFSource
+
+
+def new_shared_notes():
+    import rtflite as rtf
+    return (rtf.RTFFootnote(text=["Note one", "Note two", "Note three"]), rtf.RTFSource(text=["Source: a", "b"]))
 
 
 def new_shared_subline():
@@ -306,7 +318,7 @@ def new_shared_body(fam):
     return rtf.RTFBody() if fam == "b" else rtf.RTFBody(col_rel_width=[1])
 
 
-def build_pool_doc(name, shared_body=None, tmpdir=None, shared_page=None, shared_subline=None):
+def build_pool_doc(name, shared_body=None, tmpdir=None, shared_page=None, shared_subline=None, shared_notes=None):
     import polars as pl
     spec = dict(POOL[name])
     if tmpdir:
@@ -317,4 +329,5 @@ def build_pool_doc(name, shared_body=None, tmpdir=None, shared_page=None, shared
         return rtf.RTFDocument(df=df, rtf_body=rtf.RTFBody(group_by=["~D1.1~"], text_color="grey39"), rtf_title=None)
     return build_color_doc(spec, shared=shared_body if name in SHARED_FAMILY else None,
                            shared_page=shared_page if name in SHARED_PAGE else None,
-                           shared_subline=(shared_subline if shared_subline is not None else new_shared_subline()) if name in SHARED_SUBLINE else None)
+                           shared_subline=(shared_subline if shared_subline is not None else new_shared_subline()) if name in SHARED_SUBLINE else None,
+                           shared_notes=(shared_notes if shared_notes is not None else new_shared_notes()) if name in SHARED_NOTES else None)
